@@ -131,6 +131,33 @@ func checkEnzymeTable(c *Ctx, byName *ssa.Function) {
 			rv, okRv := pat("RegexpRev")
 			skip, okSkip := num("Skip")
 			ovl, okOvl := num("OverhangLen")
+			// a pattern is the site when it is the site's letters, whatever flags stand in front of it ("(?i)": the
+			// search space is upper-cased anyway); a pattern with other regexp syntax in it is not compared
+			plain := func(p string) (string, bool) {
+				p = strings.TrimPrefix(p, "(?i)")
+				for _, r := range p {
+					if !(r >= 'A' && r <= 'Z') && !(r >= 'a' && r <= 'z') {
+						return p, false
+					}
+				}
+				return strings.ToUpper(p), true
+			}
+			if okFw {
+				if q, isPlain := plain(fw); isPlain {
+					fw = q
+				} else {
+					unknowns = append(unknowns, "forward pattern "+fw+" is not a plain site")
+					okFw = false
+				}
+			}
+			if okRv {
+				if q, isPlain := plain(rv); isPlain {
+					rv = q
+				} else {
+					unknowns = append(unknowns, "reverse pattern "+rv+" is not a plain site")
+					okRv = false
+				}
+			}
 			if okSite && okFw && fw != site {
 				problems = append(problems, fmt.Sprintf("forward pattern %q != recognition site %q", fw, site))
 			}
